@@ -343,3 +343,62 @@ Fixpoint run (s : conn) (ls : list label) : option conn :=
   end.
 
 Definition reachable (s : conn) : Prop := exists ls, run conn_init ls = Some s.
+
+(* ---------------------------------------------------------------- specification for the tie *)
+(* The property, stated on an observed operation sequence of the handler map alone (written from
+   the property text, not from the code).  The checker keeps the list of outstanding ids: id ->
+   (request id, token, abandoned?).  It is meaningful when request ids and tokens are not
+   duplicated ([sm_applicable]); the driver evaluates it on the IMPLEMENTATION's results when
+   they differ from the model's.
+   - an allocated id is below 32768 and is not outstanding (no reuse before the answer);
+   - allocation fails only when all 32768 ids are outstanding, and gives the same handler back;
+   - a lookup (an answer arriving on that id) yields exactly the handler that was allocated with
+     that id, or "orphaned" when that request was abandoned, or "missing" when the id is not
+     outstanding; afterwards the id is no longer outstanding. *)
+Definition spec_state := list (N * (N * (N * bool))).
+
+Definition mark_orphan (rid : N) (st : spec_state) : spec_state :=
+  map (fun e => let '(sid, (r, (t, o))) := e in if r =? rid then (sid, (r, (t, true))) else e) st.
+
+Definition sm_check_step (st : spec_state) (o : op) (r : op_res) : option spec_state :=
+  match o, r with
+  | OpAlloc rid tok, RAlloc (AllocOk sid) _ =>
+      if (sid <? nids) && match aget sid st with None => true | Some _ => false end
+      then Some (aput sid (rid, (tok, false)) st) else None
+  | OpAlloc rid tok, RAlloc AllocFull t =>
+      if (t =? tok) && (N.of_nat (List.length st) =? nids) then Some st else None
+  | OpOrphan rid, RUnit => Some (mark_orphan rid st)
+  | OpLookup sid, RLookup res =>
+      match aget sid st, res with
+      | Some (rid, (tok, false)), LHandler rid' tok' =>
+          if (rid =? rid') && (tok =? tok') then Some (arem sid st) else None
+      | Some (_, (_, true)), LOrphaned => Some (arem sid st)
+      | None, LMissing => Some st
+      | _, _ => None
+      end
+  | OpProbe tok, RProbe b =>
+      if Bool.eqb b (existsb (fun e => (fst (snd (snd e)) =? tok) && negb (snd (snd (snd e)))) st)
+      then Some st else None
+  | _, _ => None
+  end.
+
+Fixpoint sm_check_from (st : spec_state) (ops : list op) (rs : list op_res) : bool :=
+  match ops, rs with
+  | [], [] => true
+  | o :: ops', r :: rs' =>
+      match sm_check_step st o r with
+      | Some st' => sm_check_from st' ops' rs'
+      | None => false
+      end
+  | _, _ => false
+  end.
+Definition sm_check (ops : list op) (rs : list op_res) : bool := sm_check_from [] ops rs.
+
+Fixpoint nodupb (l : list N) : bool :=
+  match l with [] => true | x :: r => negb (smem x r) && nodupb r end.
+Definition alloc_rids (ops : list op) : list N :=
+  flat_map (fun o => match o with OpAlloc rid _ => [rid] | _ => [] end) ops.
+Definition alloc_toks (ops : list op) : list N :=
+  flat_map (fun o => match o with OpAlloc _ tok => [tok] | _ => [] end) ops.
+Definition sm_applicable (ops : list op) : bool :=
+  nodupb (alloc_rids ops) && nodupb (alloc_toks ops).
